@@ -196,6 +196,95 @@ def hier_cases(C: Counter) -> List[dict]:
     return out
 
 
+
+DST_MODELS = [  # (simulator type, model description): the kind of an input comes from the description (C12's model)
+    ("hybrid", {"attrs": ["a"], "any_inputs": True}),
+    ("hybrid", {"attrs": ["a"], "any_inputs": True, "trigger": ["t"]}),
+    ("hybrid", {"attrs": ["a"], "any_inputs": True, "non-trigger": ["a"]}),
+    ("event-based", {"attrs": ["a"], "any_inputs": True}),
+    ("time-based", {"attrs": ["a"], "any_inputs": True}),
+    ("hybrid", {"attrs": ["a", "t"], "trigger": ["t"]}),
+    ("hybrid", {"attrs": ["a", "b"]}),
+    ("hybrid", {"attrs": ["a", "b", "t"], "non-trigger": ["a"]}),
+    ("event-based", {"attrs": ["a", "t"]}),
+    ("time-based", {"attrs": ["a", "b"]}),
+]
+API_DST_ATTRS = ["a", "b", "t", "x"]
+API_CONNS = [("plain", {}), ("shift", {"time_shifted": True}), ("shift2", {"time_shifted": 2}), ("weak", {"weak": True})]
+
+
+def api_cases(C: Counter) -> List[dict]:
+    """connect() through the plain API against models whose input kinds come from defaults and `any_inputs`
+    (the destination attribute need not be listed anywhere), plus argument shapes: one initial_data dict
+    object used for several calls, one source attribute mapped to two destination attributes in one call."""
+    import mosaik
+    import warnings
+    from mosaik.exceptions import ScenarioError
+    from .c12 import expected as classify, FRESH
+    from ..build import setup_logging
+    setup_logging()
+    out: List[dict] = []
+    full = frozenset(API_DST_ATTRS) | {FRESH}
+    src_spec = {"type": "hybrid", "entities": ["e0"], "ins": {}, "outs": {},
+                "model_desc": {"public": True, "params": [], "attrs": ["o", "e"], "non-persistent": ["e"]}}
+    with warnings.catch_warnings():
+        warnings.simplefilter("ignore")
+        for mi, (typ, desc) in enumerate(DST_MODELS):
+            n, t, _p, _e = classify(desc, typ, full)
+            dst_spec = {"type": typ, "entities": ["e0", "e1"], "ins": {}, "outs": {},
+                        "model_desc": dict(desc, public=True, params=[])}
+            for sa in ("o", "e", "nope"):
+                for da in API_DST_ATTRS:
+                    for ckind, ckw in API_CONNS:
+                        for has_init in (False, True):
+                            for shape in ("single", "dict_reused", "two_dest_attrs"):
+                                if shape != "single" and not (has_init and ckind != "plain"):
+                                    continue
+                                world = mosaik.World({"S": {"python": "vlab.sims:ScriptedSim"}}, skip_greetings=True)
+                                try:
+                                    with world.group():
+                                        fa = world.start("S", sim_id="A", spec=src_spec)
+                                        fb = world.start("S", sim_id="B", spec=dst_spec)
+                                    ea = fa.M()
+                                    eb, eb2 = fb.M.create(2)
+                                    probs = []
+                                    if sa not in ("o", "e"):
+                                        probs.append("source attribute is not an output")
+                                    if da not in (n | t):
+                                        probs.append("destination attribute is not an input")
+                                    if ckind != "plain" and da in n and not has_init:
+                                        probs.append("shifted/weak into non-trigger input without initial data")
+                                    kw = dict(ckw)
+                                    D = {sa: "INIT"}
+                                    if has_init:
+                                        kw["initial_data"] = D
+                                    case = {"api": True, "dst_type": typ, "dst_model": desc, "src_attr": sa, "dst_attr": da,
+                                            "connection": ckind, "initial_data": has_init, "shape": shape}
+                                    C["api_connect_cases"] += 1
+                                    C["api_shape_" + shape] += 1
+                                    C["api_expected_reject" if probs else "api_expected_accept"] += 1
+                                    try:
+                                        if shape == "two_dest_attrs":
+                                            da2 = next(x for x in API_DST_ATTRS if x != da)
+                                            if da2 not in (n | t):
+                                                probs.append("second destination attribute is not an input")
+                                            world.connect(ea, eb, (sa, da), (sa, da2), **kw)
+                                        else:
+                                            world.connect(ea, eb, (sa, da), **kw)
+                                            if shape == "dict_reused":
+                                                # the same dict object again, for another destination entity
+                                                world.connect(ea, eb2, (sa, da), **kw)
+                                        ok = True
+                                    except ScenarioError:
+                                        ok = False
+                                    if ok != (not probs):
+                                        out.append({"kind": "accepted_but_invalid" if ok else "rejected_but_valid",
+                                                    "case": case, "expected_problems": probs})
+                                finally:
+                                    world.shutdown()
+    return out
+
+
 def obligations(st):
     return st.get("steps", 0)
 
@@ -233,6 +322,13 @@ def run_slice(job: dict) -> dict:
             C["violation_" + vv["kind"]] += 1
             C["unlisted_violations"] += 1
             res["violations"].append({"v": vv, "replay": {"hier_case": True}})
+        res["evaluations"] += 1
+    if w == 1 % W:
+        for vv in api_cases(C):
+            C["violation_" + vv["kind"]] += 1
+            C["unlisted_violations"] += 1
+            if len(res["violations"]) < 10:
+                res["violations"].append({"v": vv, "replay": {"api_case": True}})
         res["evaluations"] += 1
     # ---- (B) group scoping end-to-end with the engine-A monitors ------------------------
     def post(scn, tr, a):
@@ -274,6 +370,8 @@ def replay(rep: dict) -> List[dict]:
         return out
     if "hier_case" in r:
         return hier_cases(Counter())
+    if "api_case" in r:
+        return api_cases(Counter())
     if "scn" in r:
         from ..monitors import Analysis
         tr = run_case(r["scn"], dict(r["sched"]))
@@ -291,6 +389,8 @@ def decide(m, tier):
         reasons.append("decision table: fewer than 500 cases on one side")
     if c.get("rejected_pairs_run", 0) < 200:
         reasons.append("fewer than 200 rejected pairs followed by a run")
+    if c.get("api_expected_accept", 0) < 200 or c.get("api_expected_reject", 0) < 200:
+        reasons.append("API-level cases (defaults / any_inputs / argument shapes): fewer than 200 on one side")
     if c.get("placements_sibling", 0) < 100:
         reasons.append("fewer than 100 sibling placements")
     if c.get("scoping_runs_with_sibling_groups", 0) < 200 or c.get("scoping_substeps", 0) < 500:
@@ -304,7 +404,10 @@ def evidence(m, tier, seed):
                 "non-trigger, no input}) x {plain, shifted, shifted=2, weak} x initial data yes/no x every ordered "
                 "pair of 6 group paths (root, same, nested, sibling) plus self-connections, cache on and off, plus "
                 "child entities of another model (hierarchical create()), and the same connection after an accepted "
-                "connection between the same simulators (sequence of calls); real connect(), then a "
+                "connection between the same simulators (sequence of calls); (A2, counters api_*) the plain API against 10 destination "
+                "models whose input kinds come from type defaults and any_inputs (destination attributes listed nowhere), with "
+                "one initial_data dict object reused for two calls and one source attribute mapped to two destination "
+                "attributes in one call; real connect(), then a "
                 "run with the source starved to show that a rejected pair left no data-flow, output request, "
                 "trigger or wait; (B) generated scenarios with sibling/nested groups and weak loops under the "
                 "step-set and ordering monitors (labels by group path); distinct_nontrivial = distinct table "
